@@ -514,3 +514,122 @@ def q_recover_glue(env, name=None):
         finish(qr, ex)
     qr.samples.append({"obligation": qr.name, "entry_points": ["Signature::get_public_key", "Signature::get_public_key_from_digest"]})
     return qr
+
+
+# ----------------------------------------------------------------------------- public key of a private key (C07)
+def q_pubkey_derivation(env, name=None):
+    """PrivateKey::get_point and PublicKey::from_private_key_impl from MIR, scalar multiplication and the SEC1 encoder uninterpreted:
+    the returned bytes are the encoding of THIS key's public point in the form the key's compression flag states (compressed iff
+    is_pub_key_compressed), and from_private_key_impl stores exactly those bytes with that flag."""
+    import re as _re
+    from .models_sign import record
+    qr = QResult(name or "pubkey_derivation")
+    P = env.P
+    S = P.structs
+    base = [m for m in MODELS if not m[1].__name__.startswith(("m_sha256", "m_sha256d", "m_hash160", "m_sha512", "m_ripemd160", "m_sha1"))]
+    PUBPOINT = lambda d: uf("PUBLIC_POINT", B256, B256)(d)
+
+    def bterm(v):
+        v = deref(v)
+        return v.t if isinstance(v, Bool) else (v.t != 0)
+
+    def m_public_key(ex, a, callee, canon):
+        sk = deref(a[0])
+        return Opaque("K256PublicKey", PUBPOINT(sk.payload))
+
+    def m_as_affine(ex, a, callee, canon):
+        return a[0] if isinstance(a[0], Ptr) else Ptr([a[0]], 0)
+
+    def m_to_encoded_point(ex, a, callee, canon):
+        p = deref(a[0])
+        flag = bterm(a[1])
+        record(ex, "encode", flag=flag, point=p.payload)
+        if ex.decide(flag):
+            return Opaque("EncodedPoint", Bytes(seq_of(be_bytes(uf("SEC1_COMPRESSED", B256, z3.BitVecSort(264))(p.payload), 33))))
+        return Opaque("EncodedPoint", Bytes(seq_of(be_bytes(uf("SEC1_UNCOMPRESSED", B256, z3.BitVecSort(520))(p.payload), 65))))
+
+    def m_as_bytes(ex, a, callee, canon):
+        return Ptr([deref(a[0]).payload], 0)
+    R = _re.compile
+    def m_slice_into_vec(ex, a, callee, canon):
+        return Bytes(ex.bytes_of(a[0]))
+    CM = [(R(r"^<&\[u8\] as Into<Vec<u8>>>::into$"), m_slice_into_vec), (R(r"(^|::)SecretKey::public_key$"), m_public_key), (R(r"(^|::)PublicKey::as_affine$"), m_as_affine), (R(r"to_encoded_point$"), m_to_encoded_point), (R(r"(^|::)EncodedPoint::as_bytes$"), m_as_bytes)]
+    _nat = {}
+
+    def report(what):
+        if len(qr.violations) >= MAX_VIOLATIONS or any(v["message"] == what for v in qr.violations):
+            return
+        if "r" not in _nat:
+            req = {"tx": {"version": 1, "locktime": 0, "inputs": [], "outputs": []}, "ops": [{"op": "pubkey_derive", "key": k} for k in ((b"\x00" * 31 + b"\xa7").hex(), "fffffffffffffffffffffffffffffffebaaedce6af48a03bbfd25e8cd0364140")]}
+            _nat["r"] = (req, {p: C.Native.run(req, p) for p in ("debug", "release")})
+        req, nat = _nat["r"]
+        probs = sorted({p for v in nat.values() for o in v for p in (o.get("ok", {}).get("problems", []) if isinstance(o.get("ok"), dict) else ["tool: " + json.dumps(o)[:160]])})
+        item = {"message": what, "request": req, "op_index": 0, "expected": {"problems": []}, "native": {"problems": probs[:8]}, "reproduced": bool(probs)}
+        if probs:
+            qr.violations.append(item)
+        else:
+            qr.undecided.append(what + " — not reproduced natively")
+
+    def sat(pc, *extra):
+        st = {}
+        r = SE.check_sat(list(pc), list(extra), st)
+        qr.queries += st.get("queries", 0)
+        qr.solver_s += st.get("solver_s", 0.0)
+        if r == z3.unknown:
+            qr.undecided.append("solver unknown")
+        return r
+    for what, callsite in (("PrivateKey::get_point", "keypair::private_key::PrivateKey::get_point"), ("PublicKey::from_private_key_impl", "keypair::public_key::PublicKey::from_private_key_impl")):
+        try:
+            fn = env.fn(callsite)
+        except Unsupported as e:
+            qr.undecided.append(f"{what}: {e}")
+            continue
+        qr.cases += 1
+        ex = Exec(P, CM + SMODELS + HMODELS + base)
+
+        def setup(ex):
+            ctx = Ctx()
+            ctx.d = z3.BitVec("secret", 256)
+            ctx.c = z3.Bool("key_compressed")
+            pk = Struct("PrivateKey", [None] * 2)
+            pk.f[S["PrivateKey"].index("secret_key")] = Opaque("SecretKey", ctx.d)
+            pk.f[S["PrivateKey"].index("is_pub_key_compressed")] = Bool(ctx.c)
+            return fn, [Ptr([pk], 0)], ctx
+        try:
+            results = ex.explore(setup)
+        except Unsupported as e:
+            qr.undecided.append(f"{what}: {e}")
+            continue
+        seen = 0
+        for r in results:
+            qr.paths += 1
+            c = r.ctx
+            if r.kind != "ok":
+                report(f"{what}: {r.kind}: {getattr(r, 'msg', '')[:80]}")
+                continue
+            enc = [kw for nm, kw in getattr(r, "recorded", []) if nm == "encode"]
+            if len(enc) != 1:
+                report(f"{what}: the result does not come from exactly one SEC1 encoding of the public point")
+                continue
+            seen += 1
+            if sat(r.pc, enc[0]["point"] != PUBPOINT(c.d)) != z3.unsat:
+                report(f"{what}: the encoded point is not this key's public point")
+            if sat(r.pc, enc[0]["flag"] != c.c) != z3.unsat:
+                report(f"{what}: the public key is not encoded in the form the key's compression flag states (an uncompressed key yields the compressed encoding or vice versa, so HASH160, address and locking script are those of the other form)")
+            ret = deref(r.ret)
+            if what.endswith("get_point"):
+                pts = ex.seq_items(ex.bytes_of(ret))
+                flag_ok = True
+            else:
+                pts = ex.seq_items(ret.f[S["PublicKey"].index("point")].s)
+                flag_ok = sat(r.pc, bterm(ret.f[S["PublicKey"].index("is_compressed")]) != c.c) == z3.unsat
+            want = be_bytes(uf("SEC1_COMPRESSED", B256, z3.BitVecSort(264))(enc[0]["point"]), 33) if pts is not None and len(pts) == 33 else be_bytes(uf("SEC1_UNCOMPRESSED", B256, z3.BitVecSort(520))(enc[0]["point"]), 65)
+            if pts is None or len(pts) != len(want) or sat(r.pc, z3.Or(*[p != q for p, q in zip(pts, want)])) != z3.unsat:
+                report(f"{what}: the returned bytes are not the encoder's output")
+            if not flag_ok:
+                report(f"{what}: the stored compression flag is not the private key's")
+        if seen == 0:
+            qr.undecided.append(f"{what}: no path reaches the encoder (vacuous)")
+        finish(qr, ex)
+    qr.samples.append({"obligation": qr.name, "entry_points": ["PrivateKey::get_point", "PublicKey::from_private_key_impl"]})
+    return qr
